@@ -92,7 +92,7 @@ def translate_statement(  # noqa: C901
 
         # A tuple-typed name evaluates to the flat list of its bits: nest the bits as
         # the type says, so that the new binding gets the bit names of its type
-        if len(get_args(tval)) > 0 and isinstance(val, list):
+        if len(get_args(tval)) > 0:
             val = _regroup_bits(_flatten_bits(val), tval)
 
         res = decompose_to_symbols(val, f"{target}")
@@ -121,7 +121,7 @@ def translate_statement(  # noqa: C901
 
         # A tuple-typed name evaluates to the flat list of its bits: regroup them as
         # the type says, so that the return bits get the names of the declared ones
-        if len(get_args(texp)) > 0 and isinstance(vexp, list):
+        if len(get_args(texp)) > 0:
             vexp = _regroup_bits(_flatten_bits(vexp), texp)
 
         res = decompose_to_symbols(vexp, "_ret")
